@@ -223,6 +223,15 @@ def _forall_v(ip, args, kw):
     return ZB(z3.ForAll(vs, b))
 
 
+@spec("exists_v")
+def _exists_v(ip, args, kw):
+    clo = args[0]
+    names = [a.arg for a in clo.node.args.args]
+    vs = [L.fresh(n) for n in names]
+    b = as_bool(ip.call_closure(clo, [ZV(v, None) for v in vs]))
+    return ZB(z3.Exists(vs, b))
+
+
 @spec("forall_str2")
 def _forall_str2(ip, args, kw):
     clo = args[0]
@@ -276,6 +285,12 @@ def _tag(ip, args, kw):
 @spec("items_")
 def _items(ip, args, kw):
     return ZV(L.dict_items(as_v(args[0])), "Seq[seq]")
+
+
+@spec("values_")
+def _values(ip, args, kw):
+    """The sequence dict.values() returns."""
+    return ZV(L.dict_values(as_v(args[0])), "seq")
 
 
 @spec("concat_")
